@@ -89,6 +89,10 @@ def gen_cases(ctx):
             for c in cores:
                 cases.append(dict(cfg=name, scope="A", stream="handler", seed=seed, cores=c,
                                   delay_seed=rng.randrange(10 ** 6), max_delay_ms=3.0))
+        # schedule perturbation at the workers' synchronisation operations (pause after release / after send /
+        # before clear), 2-4 cores
+        for k in range(5):
+            cases.append(pause_case(rng, rng.choice(PAUSE_CFGS), [2, 3, 4, 2, 3][k]))
     else:
         names = list(CONFIGS_A)
         for i in range(150):
@@ -96,6 +100,8 @@ def gen_cases(ctx):
             seed = rng.randrange(1, 10 ** 6) if i % 3 == 0 or not cases else cases[-1]["seed"]
             cases.append(dict(cfg=name, scope="A", stream="handler", seed=seed, cores=rng.choice([2, 3, 4, 5, 6]),
                               delay_seed=rng.randrange(10 ** 6), max_delay_ms=rng.choice([0.0, 1.0, 3.0, 3.0])))
+        for k in range(40):
+            cases.append(pause_case(rng, rng.choice(PAUSE_CFGS), rng.choice([2, 2, 3, 3, 4, 6])))
         namesb = list(CONFIGS_B)
         for i in range(50):
             cases.append(dict(cfg=namesb[i % len(namesb)], scope="B", stream="call", seed=rng.randrange(1, 10 ** 6),
@@ -104,12 +110,26 @@ def gen_cases(ctx):
     return cases
 
 
+PAUSE_CFGS = ["dipoles_atom_factors-coulomb_4dipoles", "water_lj_inverted-coulomb-bending_4molecules",
+              "dipoles_cell_bounded-coulomb", "dipoles_atom_factors-coulomb"]
+
+
+def pause_case(rng, name, cores):
+    return dict(cfg=name, scope="A", stream="handler", seed=rng.randrange(1, 10 ** 6), cores=cores,
+                delay_seed=rng.randrange(10 ** 6), max_delay_ms=rng.choice([0.0, 1.0, 3.0]), timeout=60,
+                pause={"seed": rng.randrange(10 ** 6), "prob": rng.choice([0.08, 0.15, 0.25]), "min_ms": 10.0,
+                       "max_ms": 30.0, "ops": rng.choice([["release", "send", "clear"], ["release"], ["send", "clear"],
+                                                          ["release", "send", "clear", "wait"]])})
+
+
 def payload(case, mediator):
     cfg = (CONFIGS_A if case["scope"] == "A" else CONFIGS_B)[case["cfg"]]
     p = dict(cfg)
     p.update(mediator=mediator, seed=case["seed"], stream=case["stream"], timeout=case.get("timeout", 150))
     if mediator == "multi":
         p.update(cores=case["cores"], delay_seed=case["delay_seed"], max_delay_ms=case["max_delay_ms"])
+        if case.get("pause"):
+            p["pause"] = case["pause"]
     return p
 
 
@@ -253,8 +273,8 @@ def oracle(case, s, m):
         return fails, ["F7"]
     for name, o in (("single-process", s), ("multi-process", m)):
         if o["status"] == "timeout":
-            fails.append("%s run did not finish within the timeout (deadlock?) stages=%s"
-                         % (name, o.get("stages_at_timeout")))
+            fails.append("%s run did not finish within the timeout (deadlock?) stages=%s pauses=%s"
+                         % (name, o.get("stages_at_timeout"), o.get("pauses")))
         elif o["status"] != "ok":
             fails.append("%s run failed: %s %s" % (name, o["status"], o.get("exception", "")))
     if fails:
@@ -422,6 +442,9 @@ def run(ctx, cases_override=None):
             "pre-computed out-states drained in the trash loop (stage out_state_started)": stats["trash_in_oss"],
             "excluded_cases": [[cases[i]["cfg"], e] for i, e in exclusions][:20],
             "n_excluded": len(exclusions),
+            "runs with pauses at the workers' synchronisation operations (after release / after send / before clear)":
+                sum(1 for c in cases if c.get("pause")),
+            "pauses injected": sum(p["n"] for m_ in multi for p in m_.get("pauses", [])),
             "cell-veto probes that hit finding F7": len(f7),
             "tie probe (documentation of the strict-minimum hypothesis, never decides pass/fail)": tie_probe,
         },
